@@ -122,6 +122,11 @@ impl<L: SimLang> Analysis<L> for SimAn {
             let (a, b, d) = c.get();
             c.set((a, b, d + 1))
         });
+        if eg.analysis.modify {
+            // a hook may read the class it is called for (the crate hands `modify` the leader of the class at
+            // the moment of the call): `enodes` refuses a dead class
+            let _ = eg.enodes(id).len();
+        }
         if eg.analysis.modify && L::NAME == "LS" {
             // `g(s, x) = x` as a modify hook: the class of every inserted g-node is united with its child
             // from inside the rebuild of the `add` that created it (the new class usually dies at once,
